@@ -37,7 +37,10 @@ CFG = dict(
           "an in-harness reference and checked against the output alphabet independently. non-trivial = at least one mechanism "
           "flag observed (see mechanisms_observed); distinct = distinct FNV fingerprints of (kind, class indices or sizes, input "
           "digest). Scheme-less 'host:/path' (empty port) is ambiguous with 'scheme:/path' and only checked for memory safety "
-          "and containment. coverage.python_rechecked_* = urllib.parse.quote / unquote_to_bytes second opinion on a sample."),
+          "and containment. Two input classes on which the pinned tree broke the property (scheme-less text whose first ':' is "
+          "a ':/' inside the path or query; no path and a '/' inside the query; both repaired by fix: commits) stay under the "
+          "strict oracle with their own keys C13:defect:* (counters regression_class_*). "
+          "coverage.python_rechecked_* = urllib.parse.quote / unquote_to_bytes second opinion on a sample."),
     assumptions=["harness allocator never fails (library aborts on OOM)",
                  "URIs contain no '#' fragment and only RFC 3986 characters in each component (the property names no fragment)",
                  "encoders are only given dynamic buffers (aws_byte_buf_reserve requires an allocator)"],
@@ -51,6 +54,7 @@ CFG = dict(
         "decode_malformed_rejected": 1000, "decode_mixed_case_hex": 100,
         "iterator_skipped_empty_pair": 1000, "iterator_pair_without_equals": 1000, "iterator_equals_inside_value": 1000,
         "list_form_static_list_too_small_refused": 100, "python_sample_records": 100,
+        "regression_class_colon_slash_inputs": 1000, "regression_class_slash_in_query_inputs": 1000,
     }},
     post=c13_uri.post,
 )
